@@ -37,14 +37,29 @@
      - wordwrap: wraps after w WORDS, not after w characters;
      - first/last/make_list/join on ill-formed UTF-8: a bad byte becomes U+FFFD (example);
      - upper/lower/capfirst on non-ASCII text rest on Go's Unicode tables: not modelled (Unmod);
-     - join of a list with the EMPTY separator prints the Go slice: not modelled (Unmod);
      - cut: "the result contains no occurrence of x" is FALSE for arguments of two or more
        bytes (removing occurrences can create new ones: [C18b_cut_can_leave_an_occurrence]);
-       what holds is Python's replace law [cut_rel], and the claim for one-byte arguments. *)
+       what holds is Python's replace law [cut_rel], and the claim for one-byte arguments.
+
+   Third part (at the end): the tag {% widthratio current max width [as name] %}, Django's
+   current / max * width rounded, on a maximum of ZERO (definitions in Spec/SpecWidthratio.v).
+   Django answers "0" there; pongo2 printed the integer conversion of +Inf, -Inf or NaN, and
+   now answers 0 as well (fix D48).
+     - C18_widthratio_zero_max: when the three arguments evaluate and convert to numbers and
+       the maximum converts to a zero (the integer 0, 0.0, -0.0, nil ...), the tag writes the
+       text "0" - whatever current and width are - and leaves the state as the evaluation of
+       the arguments left it;
+     - C18_widthratio_zero_max_as: with "as name" it writes nothing and binds name to the
+       integer 0 in the private context of the frame;
+     - C18_widthratio_zero_values: the integer 0 and both float zeros are such maxima.
+   These are laws of one step of [exec_node] (fuel S f, the arguments evaluated with fuel f),
+   stated on the model directly; the examples run the tag by computation. *)
 From PV Require Import Model.Filters Spec.SpecFilters gen.Scalar.
 From PV Require Import Tie.C18.
 From PV Require Import Model.Filters Spec.SpecFilters Spec.SpecFilters2.
 From PV Require Import Tie.C18b.
+From PV Require Import Lib.GoFloat Model.Value Model.Doc Model.Exec Spec.SpecWidthratio.
+From PV Require Import Tie.C18c.
 Open Scope N_scope.
 
 (* slice is Python slicing, on lists of any length ... *)
@@ -178,12 +193,21 @@ Print Assumptions C18_get_digit_guard_is_the_code.
 (* ================================================================== *)
 (* join, split                                                         *)
 
-(* join on a list of scalars of any kinds: their texts with the separator between them *)
+(* join on a list of scalars of any kinds: their texts with the separator between them, for
+   EVERY separator - the empty one included (fix D46; before, a list with the empty separator
+   printed Go's placeholder for the slice and was outside the model) *)
 Theorem C18b_join_list : forall (x p : value) (l : list val) (strs : list str) (sep : str),
-  vv x = VList l -> to_string (vv p) = Some sep -> sep <> [] -> rendered l strs ->
+  vv x = VList l -> to_string (vv p) = Some sep -> rendered l strs ->
   apply_filter n_join x p = Ok (as_value (VStr (py_join sep strs))).
 Proof. exact tie_join_list. Qed.
 Print Assumptions C18b_join_list.
+
+(* ... and with the empty separator that is the concatenation of the items' texts ("".join(l)) *)
+Theorem C18b_join_list_empty_separator : forall (x p : value) (l : list val) (strs : list str),
+  vv x = VList l -> to_string (vv p) = Some [] -> rendered l strs ->
+  apply_filter n_join x p = Ok (as_value (VStr (concat strs))).
+Proof. exact tie_join_list_nosep. Qed.
+Print Assumptions C18b_join_list_empty_separator.
 
 (* join on a string: its characters are the items; with the empty separator the string itself *)
 Theorem C18b_join_string : forall (x p : value) (s sep : str),
@@ -234,15 +258,23 @@ Example C18b_join_instance :  (* the hypotheses of C18b_join_list on that list *
   = Ok (as_value (VStr (py_join [44; 32] [[97]; [49; 50]; [84; 114; 117; 101]; []]))).
 Proof.
   apply (C18b_join_list _ _ [VStr [97]; VInt 12; VBool true; VNil]);
-    [reflexivity | reflexivity | discriminate | repeat constructor].
+    [reflexivity | reflexivity | repeat constructor].
 Qed.
 Example C18b_join_string_example :   (* "aéb" | join:"-"  =  "a-é-b" *)
   apply_filter n_join (as_value (VStr [97; 195; 169; 98])) (as_value (VStr [45]))
   = Ok (as_value (VStr [97; 45; 195; 169; 45; 98])).
 Proof. vm_compute. reflexivity. Qed.
-Example C18b_join_list_empty_separator_example :   (* outside the model: Go prints the slice *)
-  apply_filter n_join (as_value (VList [VStr [97]; VStr [98]])) (as_value (VStr [])) = Unmod.
+Example C18b_join_list_empty_separator_example :   (* ["a", 12, "b"] | join:""  =  "a12b" (fix D46) *)
+  apply_filter n_join (as_value (VList [VStr [97]; VInt 12; VStr [98]])) (as_value (VStr []))
+  = Ok (as_value (VStr [97; 49; 50; 98])).
 Proof. vm_compute. reflexivity. Qed.
+Example C18b_join_list_empty_separator_instance :  (* the hypotheses of the theorem on that list *)
+  apply_filter n_join (as_value (VList [VStr [97]; VInt 12; VStr [98]])) (as_value (VStr []))
+  = Ok (as_value (VStr (concat [[97]; [49; 50]; [98]]))).
+Proof.
+  apply (C18b_join_list_empty_separator _ _ [VStr [97]; VInt 12; VStr [98]]);
+    [reflexivity | reflexivity | repeat constructor].
+Qed.
 Example C18b_split_example :   (* "a,b,,c" | split:","  =  ["a", "b", "", "c"] *)
   apply_filter n_split (as_value (VStr [97; 44; 98; 44; 44; 99])) (as_value (VStr [44]))
   = Ok (as_value (VList [VStr [97]; VStr [98]; VStr []; VStr [99]])).
@@ -693,3 +725,60 @@ Qed.
 Theorem C18b_ascii_is_well_formed : forall s, is_ascii s -> Forall scalar s /\ of_runes s = s.
 Proof. exact tie_ascii_wf. Qed.
 Print Assumptions C18b_ascii_is_well_formed.
+
+(* ==================== third part ==================== *)
+
+(* ================================================================== *)
+(* widthratio with a maximum of zero (fix D48)                          *)
+
+(* a maximum that is a zero gives the text "0", whatever current and width are *)
+Theorem C18_widthratio_zero_max :
+  forall se globals f st (cur mx width : expr) (c : value) st1 (m : value) st2 (w : value) st3,
+  eval se globals f st cur = Ok (c, st1) ->
+  eval se globals f st1 mx = Ok (m, st2) ->
+  eval se globals f st2 width = Ok (w, st3) ->
+  numeric (vv c) -> zero_number (vv m) -> numeric (vv w) ->
+  exec_node se globals (S f) st (NWidthratio cur mx width []) = xok text_zero st3.
+Proof. exact tie_widthratio_zero_max. Qed.
+Print Assumptions C18_widthratio_zero_max.
+
+(* ... and with "as name" the name is bound to the integer 0 and nothing is written *)
+Theorem C18_widthratio_zero_max_as :
+  forall se globals f st (cur mx width : expr) (name : str) (c : value) st1 (m : value) st2 (w : value) st3,
+  eval se globals f st cur = Ok (c, st1) ->
+  eval se globals f st1 mx = Ok (m, st2) ->
+  eval se globals f st2 width = Ok (w, st3) ->
+  numeric (vv c) -> zero_number (vv m) -> numeric (vv w) -> name <> [] ->
+  exec_node se globals (S f) st (NWidthratio cur mx width name) = bind_zero st3 name.
+Proof. exact tie_widthratio_zero_max_as. Qed.
+Print Assumptions C18_widthratio_zero_max_as.
+
+(* the zeros: the integer 0, and the floats 0.0 and -0.0; every integer and float is a number *)
+Theorem C18_widthratio_zero_values :
+  zero_number (VInt 0) /\ (forall sign, zero_number (VFloat (S754_zero sign))) /\
+  (forall z, numeric (VInt z)) /\ (forall x, numeric (VFloat x)).
+Proof. exact tie_widthratio_zero_values. Qed.
+Print Assumptions C18_widthratio_zero_values.
+
+Example C18_widthratio_zero_max_example :   (* {% widthratio 175 0 100 %}  =  "0" *)
+  exec_node wr_se [] 10 wr_state (NWidthratio (EInt 175) (EInt 0) (EInt 100) []) = xok [48] wr_state.
+Proof. vm_compute. reflexivity. Qed.
+Example C18_widthratio_zero_max_instance :  (* the hypotheses of the theorem on that tag *)
+  exec_node wr_se [] 10 wr_state (NWidthratio (EInt 175) (EInt 0) (EInt 100) []) = xok text_zero wr_state.
+Proof.
+  apply (C18_widthratio_zero_max wr_se [] 9 wr_state _ _ _ (as_value (VInt 175)) wr_state
+           (as_value (VInt 0)) wr_state (as_value (VInt 100)));
+    [reflexivity | reflexivity | reflexivity | discriminate | | discriminate].
+  apply C18_widthratio_zero_values.
+Qed.
+Example C18_widthratio_zero_over_zero_example :   (* 0 / -0.0 is NaN: {% widthratio 0 -0.0 100 %}  =  "0" *)
+  exec_node wr_se [] 10 wr_state (NWidthratio (EInt 0) (EFloat (S754_zero true)) (EInt 100) []) = xok [48] wr_state.
+Proof. vm_compute. reflexivity. Qed.
+Example C18_widthratio_zero_max_as_example :   (* {% widthratio 175 0 100 as r %} writes nothing, r = 0 *)
+  exec_node wr_se [] 10 wr_state (NWidthratio (EInt 175) (EInt 0) (EInt 100) wr_r)
+  = xok [] (mkM [mkF [(wr_r, CV (as_value (VInt 0)))] [] true 0 1 []] [] (mkG 1 [])) /\
+  bind_zero wr_state wr_r = xok [] (mkM [mkF [(wr_r, CV (as_value (VInt 0)))] [] true 0 1 []] [] (mkG 1 [])).
+Proof. vm_compute. split; reflexivity. Qed.
+Example C18_widthratio_nonzero_max_example :   (* the other maxima are as before: {% widthratio 175 200 100 %}  =  "88" *)
+  exec_node wr_se [] 10 wr_state (NWidthratio (EInt 175) (EInt 200) (EInt 100) []) = xok [56; 56] wr_state.
+Proof. vm_compute. reflexivity. Qed.
